@@ -229,6 +229,10 @@ Proof.
     revert st H. induction n0 as [|k IHk]; intros st H; [reflexivity|].
     apply bind_ok in H. destruct H as [st1 [H1 H2]].
     cbn [repeat_app]. rewrite has_error_app, (HB _ _ _ _ _ _ H1). cbn. apply (IHk _ H2).
+  - destruct (negb (check_body BControl proto)); [discriminate|].
+    revert st H. induction bodies as [|b r IHb]; intros st H; [reflexivity|].
+    apply bind_ok in H. destruct H as [st1 [H1 H2]].
+    cbn [flat_map]. rewrite has_error_app, (HB _ _ _ _ _ _ H1). cbn. apply (IHb _ H2).
   - destruct (nth_error ms m); [|reflexivity]. apply (HB _ _ _ _ _ _ H).
   - destruct cenv as [|[cb|] outer]; try reflexivity. apply (HB _ _ _ _ _ _ H).
 Qed.
@@ -250,6 +254,7 @@ Fixpoint ns_free (s : stmt) : bool :=
   match s with
   | SNs _ _ _ => false
   | SRule _ b | SMedia _ b | SAtR _ _ (Some b) | SAtRoot _ b | SLoop _ b => all b
+  | SEach _ bs => (fix alll (l : list (list stmt)) : bool := match l with [] => true | x :: r => all x && alll r end) bs
   | SIf _ t e => all t && all e
   | SInclude _ (Some c) => all c
   | _ => true
@@ -393,6 +398,14 @@ Proof.
     + apply bind_ok in H. destruct H as [st1 [H1 H2]].
       pose proof (HB _ _ Hc _ _ _ Hs Hn H1) as G1.
       apply (good_trans _ _ _ G1), (IHk _ (proj1 G1) H2).
+  - (* loop with per-iteration bodies *)
+    destruct (negb (check_body BControl proto)); [discriminate|].
+    revert st Hn H Hs. induction bodies as [|b r IHb]; intros st Hn H Hs.
+    + inversion H; subst. apply good_refl, Hn.
+    + apply andb_true_iff in Hs. destruct Hs as [Hb Hr]. rewrite ?ns_free_all_eq in Hb.
+      apply bind_ok in H. destruct H as [st1 [H1 H2]].
+      pose proof (HB _ _ Hc _ _ _ Hb Hn H1) as G1.
+      apply (good_trans _ _ _ G1), (IHb _ (proj1 G1) H2 Hr).
   - (* @include *)
     destruct (nth_error ms m) as [mb|] eqn:Em; [|discriminate].
     assert (Hmb : ns_free_l mb = true) by (apply (nth_error_forallb _ _ _ _ Hms Em)).
@@ -417,4 +430,36 @@ Proof.
   assert (G : good (mkD [] (mkData [] []) 0) st).
   { apply (body_good fuel (p_mixins p) c (ns_free_good fuel (p_mixins p) c Hm) [] root_ctx eq_refl (p_main p) (mkD [] (mkData [] []) 0) st Hb eq_refl H). }
   apply G.
+Qed.
+
+(* ------------------------------------------------------------------------ *)
+(* loops: an error raised in ANY iteration - also a non-final one that is followed by
+   iterations that would succeed - is the result of the loop *)
+Definition each_fold (f : list stmt -> dstate -> res dstate) : list (list stmt) -> dstate -> res dstate :=
+  fix each (bs : list (list stmt)) (st : dstate) : res dstate :=
+    match bs with [] => Ok st | b :: r => bind (f b st) (each r) end.
+
+Lemma each_fold_stops f : forall bs1 b bs2 st st1 e,
+  each_fold f bs1 st = Ok st1 -> f b st1 = Err e -> each_fold f (bs1 ++ b :: bs2) st = Err e.
+Proof.
+  induction bs1 as [|x r IH]; intros b bs2 st st1 e H1 H2.
+  - cbn in H1. inversion H1; subst. cbn. rewrite H2. reflexivity.
+  - cbn in H1. apply bind_ok in H1. destruct H1 as [st0 [Hx Hr]].
+    cbn [app each_fold]. rewrite Hx. cbn [bind]. apply (IH _ _ _ _ _ Hr H2).
+Qed.
+
+Lemma each_arm n ms c cenv ctx st proto bodies :
+  check_body BControl proto = true ->
+  eval_item (S n) ms c cenv ctx st (SEach proto bodies)
+  = each_fold (fun b st => run_body (eval_item n ms c cenv ctx) b st) bodies st.
+Proof. intros H. cbn [eval_item]. rewrite H. reflexivity. Qed.
+
+Lemma loop_error_not_overwritten n ms c cenv ctx st proto bs1 b bs2 st1 e :
+  check_body BControl proto = true ->
+  each_fold (fun b st => run_body (eval_item n ms c cenv ctx) b st) bs1 st = Ok st1 ->
+  run_body (eval_item n ms c cenv ctx) b st1 = Err e ->
+  eval_item (S n) ms c cenv ctx st (SEach proto (bs1 ++ b :: bs2)) = Err e.
+Proof.
+  intros Hc H1 H2. rewrite each_arm by exact Hc.
+  apply (each_fold_stops _ bs1 b bs2 st st1 e H1 H2).
 Qed.
